@@ -10,7 +10,18 @@ import (
 	"github.com/kitex-contrib/xds/xdssuite"
 )
 
-func init() { props["C09"] = runC09 }
+func init() {
+	props["C09"] = runC09
+	replays["C09"] = func(c *ctx, in map[string]interface{}) {
+		var v []uint32
+		for _, x := range in["ws"].([]interface{}) {
+			v = append(v, uint32(x.(float64)))
+		}
+		n := int(in["n"].(float64))
+		counts, errs, panics, msg := pickVia(v, n)
+		c.emit(obj{"ws": in["ws"], "n": n, "obs": obj{"counts": counts, "errs": errs, "panics": panics, "panicMsg": msg}})
+	}
+}
 
 // pickVia routes n calls through the real XDSRouter.Route with a listener whose single catch-all
 // route lists the weighted clusters ws; returns per-index counts, routing errors and panics.
